@@ -146,6 +146,7 @@ bool ossOperationsFacet::InitFor(const PictID pid, ops::Type operation,
     opHandle->InitOperation(operation, std::move(newOptions));
     core.Src().Discard(pid);
     CheckOperation(pid);
+    core.OnCoreChange(pid); // the stored result is gone: operations built from it are not up to date
     core.NotifyModification();
     return true;
   }
